@@ -756,7 +756,13 @@ func (p *Parser) parseGenDecl(
 		lparen = p.pos
 		p.next()
 		for iota := 0; p.token != token.RParen && p.token != token.EOF; iota++ { //nolint:predeclared
+			prev := p.pos
 			list = append(list, fn(keyword, true, iota))
+			if p.pos == prev {
+				// the spec parser reported an error without consuming a token
+				// (e.g. a stray '}'): make progress, otherwise this loop never ends.
+				p.next()
+			}
 		}
 		rparen = p.expect(token.RParen)
 		p.expectSemi()
